@@ -4,8 +4,8 @@ From Coq Require Import List NArith String.
 From MV Require Import Gen.Consts Proofs.ConstsProofs.
 From MV Require Model.CodecV3 Model.CodecV5.
 Import ListNotations.
-Open Scope N_scope.
-Open Scope string_scope.
+Local Open Scope N_scope.
+Local Open Scope string_scope.
 
 Lemma model_v5_constants_are_the_source_constants :
   lookup "CONNECT" gen_packet_types = Some CodecV5.PT_CONNECT /\
